@@ -143,6 +143,7 @@ fn comp_of(c: Comp) -> Option<Compression> {
 struct Ctx<'a> {
     r: &'a Report,
     flag_bytes_seen: Mutex<BTreeSet<(u8, u8)>>, // (opcode, query/batch flags byte)
+    reported: Mutex<BTreeSet<String>>,
 }
 
 /// Serialize with the driver, parse with cqlref, compare with `want`.
@@ -183,7 +184,12 @@ fn check_frame<R: SerializableRequest>(cx: &Ctx, kind: &str, req: &R, opcode: u8
         Err(e) => return r.violation(&format!("{kind}:unparseable"), &format!("independent parser rejects the frame: {e}"), case.clone()),
     };
     if &parsed.request != want {
-        return r.violation(&format!("{kind}:body-mismatch"), &format!("frame says {} but the caller asked for {}", brief(&parsed.request), brief(want)), case.clone());
+        // (formatting a 65535-value request is expensive: only for the first case of the key)
+        let key = format!("{kind}:body-mismatch");
+        if cx.reported.lock().unwrap().insert(key.clone()) {
+            r.violation(&key, &format!("frame says {} but the caller asked for {}", brief(&parsed.request), brief(want)), case.clone());
+        }
+        return;
     }
     if comp != Comp::None {
         // compressed body must decompress to exactly the uncompressed serialization
@@ -860,7 +866,7 @@ fn replay(cx: &Ctx, case: &Value) {
 fn main() {
     vcore::quiet_panics();
     let r = Report::new("C09", "enum", "exploration", "E-ENUM");
-    let cx = Ctx { r: &r, flag_bytes_seen: Mutex::new(BTreeSet::new()) };
+    let cx = Ctx { r: &r, flag_bytes_seen: Mutex::new(BTreeSet::new()), reported: Mutex::new(BTreeSet::new()) };
     if let Some(case) = r.replay_case() {
         replay(&cx, &case);
         drop(cx);
@@ -890,7 +896,7 @@ fn main() {
     r.counters.add("distinct_query_flag_bytes", q_flags as u64);
     r.counters.add("distinct_execute_flag_bytes", e_flags as u64);
     r.counters.add("distinct_batch_flag_bytes", b_flags as u64);
-    if q_flags != 64 || e_flags != 64 || b_flags != 4 {
+    if (q_flags != 64 || e_flags != 64 || b_flags != 4) && r.violation_count() == 0 {
         vcore::machinery_error(&format!("vacuity: expected all 64/64/4 flag bytes to be produced, saw {q_flags}/{e_flags}/{b_flags}"));
     }
     drop(cx);
